@@ -646,6 +646,14 @@ Definition table_solve : list (string * (list arg -> out)) :=
        | _ => OBad end)
   ; ("det", fun args => match args with
        | [AA s1 e1] => oq [det (qmat_of s1 e1)] | _ => OBad end)
+  (* det of a stack [.., n, n]: the determinant of every n x n block of the flat data, in order *)
+  ; ("detstack", fun args => match args with
+       | [AA s1 e1] =>
+         let sh := nats s1 in
+         let n := last sh 0 in
+         let blocks := prod sh / (n * n) in
+         oq (map (fun b => det (qmat_of [Z.of_nat n; Z.of_nat n] (firstn (n * n) (skipn (b * (n * n)) e1)))) (seq 0 blocks))
+       | _ => OBad end)
   ].
 
 (* ---- C05: frexp / ldexp on exact dyadic values (mantissa array, exponent array) ---- *)
